@@ -155,13 +155,15 @@ type App struct {
 	// device verification page's own table: user-code signature -> device-code signature (the application wrote both into the response)
 	userToDevice map[string]string
 	NextTask     int
+	pendingConc  *ctask // the concurrent task about to start (tasks are started one at a time)
 }
 
 func NewApp(w *World) *App { return &App{W: w, userToDevice: map[string]string{}} }
 
 func (a *App) task() (*TaskCtx, context.Context) {
 	a.NextTask++
-	t := &TaskCtx{ID: a.NextTask}
+	t := &TaskCtx{ID: a.NextTask, Conc: a.pendingConc}
+	a.pendingConc = nil
 	return t, WithTask(fosite.NewContext(), t)
 }
 
